@@ -84,8 +84,66 @@ def _scripted_case(case):
     return out
 
 
+def _standard_case(case):
+    """save_to_file / restore_from_file are methods of StandardCombi: a restored standard combination must evaluate, interpolate and
+    go on computing exactly like the saved one (second sentence of the statement for the non-adaptive class)"""
+    import itertools
+    from sparseSpACE.StandardCombi import StandardCombi
+    from sparseSpACE.GridOperation import Integration
+    from sparseSpACE import Grid as G
+    from sparseSpACE.Function import CustomFunction
+    c = case["config"]
+    d = c["d"]
+    a, b = np.array(c["a"], dtype=float), np.array(c["b"], dtype=float)
+    key = {"strategy": "standard", "grid": c["grid"]}
+    fails = []
+
+    def make():
+        if c["grid"] == "trapezoidal":
+            grid = G.TrapezoidalGrid(a, b, boundary=c["boundary"])
+        elif c["grid"] == "clenshaw_curtis":
+            grid = G.ClenshawCurtisGrid(a, b, boundary=True)
+        elif c["grid"] == "gauss_legendre":
+            grid = G.GaussLegendreGrid(a, b)
+        else:
+            grid = G.LagrangeGrid(a, b, boundary=True, p=2)
+        f = CustomFunction(lambda x: [float(np.sin(2.0 * x[0] + 0.3) * np.exp(0.5 * x[-1])), float(np.prod([xx * xx + 0.1 for xx in x]))], output_length=2)
+        return StandardCombi(a, b, operation=Integration(f, grid=grid, dim=d), print_output=False, print_level=1000, log_level=1000)
+    lat = [tuple(a[k] + t * (b[k] - a[k]) for k, t in enumerate(p)) for p in itertools.product((0.1, 1 / 3, 0.6, 0.85), repeat=d)]
+    sc = make()
+    _, _, res = sc.perform_operation(*c["first"])
+    path = os.path.join(os.getcwd(), "c14_std_%d.dill" % os.getpid())
+    sc.save_to_file(path)
+    rs = StandardCombi.restore_from_file(path)
+    os.remove(path)
+    sch = lambda x: sorted((tuple(int(t) for t in g.levelvector), float(g.coefficient)) for g in x.scheme)
+    if sch(rs) != sch(sc):
+        fails.append(fail("restored_structure_differs", "scheme of the restored standard combination differs", key))
+    v1, v2 = np.asarray(sc(lat), dtype=float), np.asarray(rs(lat), dtype=float)
+    if v1.shape != v2.shape or not np.allclose(v1, v2, rtol=1e-13, atol=1e-15):
+        fails.append(fail("restored_interpolation_differs", "max difference %r" % (float(np.max(np.abs(v1 - v2))) if v1.shape == v2.shape else None,), key))
+    if rs.get_total_num_points() != sc.get_total_num_points():
+        fails.append(fail("restored_point_count_differs", "%r vs %r" % (rs.get_total_num_points(), sc.get_total_num_points()), key))
+    if not np.allclose(np.asarray(rs.operation.get_result(), dtype=float), np.asarray(res, dtype=float), rtol=1e-13, atol=1e-15):
+        fails.append(fail("restored_result_differs", "%r vs %r" % (rs.operation.get_result(), res), key))
+    # the restored object goes on computing: the next operation equals that of a fresh object (and of the saved one)
+    fresh = make()
+    _, _, r_fresh = fresh.perform_operation(*c["second"])
+    _, _, r_rest = rs.perform_operation(*c["second"])
+    _, _, r_orig = sc.perform_operation(*c["second"])
+    for name, r in (("restored", r_rest), ("saved", r_orig)):
+        if not np.allclose(np.asarray(r, dtype=float), np.asarray(r_fresh, dtype=float), rtol=1e-13, atol=1e-15):
+            fails.append(fail("final_result_differs", "second operation %r on the %s object: %r, fresh object %r" % (c["second"], name, r, r_fresh), key))
+    v3, v4 = np.asarray(rs(lat), dtype=float), np.asarray(fresh(lat), dtype=float)
+    if v3.shape != v4.shape or not np.allclose(v3, v4, rtol=1e-13, atol=1e-15):
+        fails.append(fail("restored_interpolation_differs", "after the second operation: max difference %r" % (float(np.max(np.abs(v3 - v4))) if v3.shape == v4.shape else None,), key))
+    return {"failures": fails, "canon": core.config_key(c), "outcome": (tuple(c["first"]), tuple(c["second"]), not fails), "nontrivial": True}
+
+
 def run_case(case):
     c = case["config"]
+    if "standard" in c:
+        return _standard_case(case)
     if "scripted" in c:
         return _scripted_case(case)
     strat, kind, norm = c["strategy"], c["integrand"], c["norm"]
@@ -183,6 +241,17 @@ def main(ctx):
         ctx.add_sample(cases[i])
     ctx.bounds = {"strategies": strategies, "integrands": kinds, "final_limits": finals, "uninterrupted_runs": len(base),
                   "interruption_cases": len(cases)}
+    # the non-adaptive class: save -> restore of a standard combination, every grid family x ordered pair of level ranges
+    std = []
+    for d, box in ((2, ([-1.0, 0.5], [2.0, 3.0])), (3, ([0.0, -1.0, 2.0], [1.0, 1.0, 3.0]))):
+        for grid, bnd in (("trapezoidal", True), ("trapezoidal", False), ("clenshaw_curtis", True), ("gauss_legendre", True), ("lagrange2", True)):
+            for first, second in (((1, 2), (1, 3)), ((2, 3), (1, 2)), ((1, 3), (1, 3))):
+                if d == 3 and (q or grid == "lagrange2") and (first, second) != ((1, 2), (1, 3)):
+                    continue
+                std.append({"config": {"standard": True, "d": d, "a": box[0], "b": box[1], "grid": grid, "boundary": bnd, "first": list(first), "second": list(second)}})
+    for case, res in zip(std, ctx.map(std, chunksize=1)):
+        ctx.absorb(case, res, group="standard_combination")
+    ctx.bounds["standard_combination_cases"] = len(std)
     # explorer part: scripted histories, every split point, both ways to continue
     T2 = [[0.3, 0.3], [0.3, 0.8]]
     scripted = [({"scripted": "dw", "d": 2, "lmin": 1, "lmax": 2, "version": 6, "rebalancing": True, "margin": 0.9, "safety": 0.1, "s": 1, "towards": T2}, 3 if q else 5),
